@@ -770,10 +770,9 @@ struct DoubleSize<Number_T, 64U> {
         dividend_high += carry;
         // -----------------------
         if (original_dividend_high > dividend_high) {
-            // Overflow
-            constexpr Number_T overflow_dividend = (Number_T{1} << (width_ - 1U));
-
-            dividend_high += ((overflow_dividend % (divisor >> 1U)) << 1U);
+            // Overflow: the true sum is (dividend_high + 2^width); subtracting the divisor once
+            // (modulo 2^width) brings it back below the divisor.
+            dividend_high -= divisor;
             ++dividend_low;
         }
 
